@@ -1,4 +1,4 @@
-(* NetconfSrc.v — driver/netconf message.serialize as the source has it on this run, CALLED THE WAY
+(* SerializeSrc.v — driver/netconf message.serialize as the source has it on this run, CALLED THE WAY
    Driver.sendRPC calls it (parameter list and argument list both read from the source), builds the
    model's Netconf.serialize: XML declaration unless the driver's ExcludeHeader, self-closing
    rewrite exactly when the driver's ForceSelfClosingTags, the raw copy taken before framing, then
@@ -85,65 +85,8 @@ Proof.
   destruct v, force, xh; cbn [denote frame]; rewrite <- ?app_assoc; split; reflexivity.
 Qed.
 
-(* ---------- Driver.ServerHasCapability (C09): exact membership ---------- *)
-From Scrapli Require Import DecideLoops.
-From Coq Require Import Arith Lia.
-Open Scope nat_scope.
-
-Definition shc_env (s : bytes) (caps : list bytes) : denv :=
-  mkEnvX (fun _ => false) (fun _ _ => false) (fun _ => "") (fun _ => None)
-         (fun st a b => if String.eqb a "serverCapability" && String.eqb b "s" then
-                          match sget st "serverCapability" with
-                          | Some u => match nth_error caps (String.length u) with
-                                      | Some c => Some (Some (beqb c s))
-                                      | None => Some None
-                                      end
-                          | None => Some None
-                          end
-                        else None)
-         (fun x => if String.eqb x "d.serverCapabilities" then List.length caps else O)
-         (fun _ _ => None).
-
-Definition shc_run (s : bytes) (caps : list bytes) : option bool :=
-  match DecideLang.exec 10 (shc_env s caps) server_has_capability_code [] with
-  | Returned _ "true" => Some true
-  | Returned _ "false" => Some false
-  | _ => None
-  end.
-
-Definition shc_body : list dstmt := [DIf (DEq "serverCapability" "s") [DReturn "true"] []].
-
-Lemma shc_loop : forall s rest pre st,
-  if existsb (fun c => beqb c s) rest
-  then exists st', range_loop (DecideLang.exec 9 (shc_env s (pre ++ rest)) shc_body) "serverCapability" (List.length rest) (List.length pre) st
-                   = Returned st' "true"
-  else exists st', range_loop (DecideLang.exec 9 (shc_env s (pre ++ rest)) shc_body) "serverCapability" (List.length rest) (List.length pre) st
-                   = Running st'.
-Proof.
-  intros s rest. induction rest as [|c t IH]; intros pre st.
-  - cbn [existsb List.length range_loop]. eexists; reflexivity.
-  - cbn [existsb List.length range_loop].
-    assert (Hb : DecideLang.exec 9 (shc_env s (pre ++ c :: t)) shc_body (("serverCapability", unary (List.length pre)) :: st)%list
-                 = if beqb c s then Returned (("serverCapability", unary (List.length pre)) :: st)%list "true"
-                   else Running (("serverCapability", unary (List.length pre)) :: st)%list).
-    { unfold shc_body. cbn [DecideLang.exec eval shc_env e_eqs e_eq String.eqb Ascii.eqb Bool.eqb andb sget fst snd].
-      rewrite unary_length, nth_error_app2, Nat.sub_diag by lia. cbn [nth_error].
-      destruct (beqb c s); reflexivity. }
-    rewrite Hb. destruct (beqb c s); cbn [orb].
-    + eexists; reflexivity.
-    + specialize (IH (pre ++ [c])%list (("serverCapability", unary (List.length pre)) :: st)%list).
-      rewrite <- app_assoc, app_length in IH. cbn [app List.length] in IH. rewrite Nat.add_1_r in IH. exact IH.
-Qed.
-
-(* THE TIE: the capability test determineVersion relies on is exact membership in the server's list *)
-Theorem server_has_capability_is_source : forall s caps,
-  shc_run s caps = Some (existsb (fun c => beqb c s) caps).
-Proof.
-  intros s caps. unfold shc_run, server_has_capability_code. fold shc_body.
-  rewrite exec_step_range.
-  replace (e_len (shc_env s caps) "d.serverCapabilities") with (List.length caps) by reflexivity.
-  pose proof (shc_loop s caps []%list []%list) as HL. cbn [app List.length] in HL.
-  destruct (existsb (fun c => beqb c s) caps).
-  - destruct HL as [st' ->]. reflexivity.
-  - destruct HL as [st' ->]. cbn [cont]. rewrite exec_step_return. reflexivity.
-Qed.
+(* every test the translated code makes is one the environment above was written for (an unknown
+   equality would otherwise evaluate to false without notice) *)
+Definition serialize_known : list string := "err == nil" :: "excludeHeader" :: "forceSelfClosingTags" :: "switch v" :: nil.
+Lemma serialize_tests_known : tests_known serialize_code serialize_known = true.
+Proof. vm_compute. reflexivity. Qed.
